@@ -1,1 +1,286 @@
-fn main(){}
+//! Checks that need the evaluation crate: C19 (class configurations) and C20 (trace replay)
+
+use std::path::{Path, PathBuf};
+use std::sync::Mutex;
+use std::sync::atomic::{AtomicU64, Ordering};
+use std::time::Instant;
+
+use llfree::{Alloc, Init, LLFree, MetaData, TREE_FRAMES};
+use llfree_eval::classes::ClassingConfig;
+use serde_json::{Value, json};
+use vh::dom::{dom_finish, par_for};
+use vh::oracle::Violation;
+use vh::report::Collector;
+
+mod replaymc;
+
+const KINDS: [&str; 5] = ["zero", "one", "cores", "cores_half", "pids"];
+
+fn config_json(kinds: &[usize]) -> String {
+    let mut classes = vec![];
+    for (j, &k) in kinds.iter().enumerate() {
+        let p = j / 2;
+        let gfp = if j % 2 == 0 {
+            json!({"off": "MOVABLE"})
+        } else {
+            json!({"on": "MOVABLE"})
+        };
+        classes.push(json!({"id": j, "count": KINDS[k], "order": [3 * p, 3 * p + 2], "gfp": gfp}));
+    }
+    json!({"classes": classes, "default": 0, "perfect": [64, 2047], "good": [2048, 4095]}).to_string()
+}
+
+struct Case<'a> {
+    cfg: &'a ClassingConfig,
+    desc: &'a str,
+    cores: usize,
+    /// slots per class as the allocator sees them
+    slots: [Option<usize>; 8],
+}
+
+fn check_request(
+    c: &Case,
+    order: usize,
+    core: usize,
+    pid: usize,
+    gfp: u32,
+    col: &Mutex<Collector>,
+) -> (u8, Option<usize>) {
+    let r = c.cfg.request(order, core, c.cores, pid, gfp);
+    let class = r.class.0;
+    let bad = match c.slots.get(class as usize).copied().flatten() {
+        None => Some("request names a class that is not configured".to_string()),
+        Some(n) => match r.local {
+            Some(l) if l >= n => Some(format!(
+                "request names local slot {l} but class {class} has {n} slot(s)"
+            )),
+            _ => None,
+        },
+    };
+    if let Some(b) = bad {
+        let kind = if b.contains("not configured") {
+            "generated request names an unconfigured class"
+        } else {
+            "generated request names a local slot beyond the class's slot count"
+        };
+        col.lock().unwrap().add(
+            Violation::new(
+                "C19",
+                kind,
+                format!(
+                    "config {} cores={} order={order} core={core} pid={pid} gfp={gfp:#x}: {b}",
+                    c.desc, c.cores
+                ),
+            ),
+            || json!({"engine": "classes", "config": c.desc, "cores": c.cores, "order": order, "core": core, "pid": pid, "gfp": gfp}),
+        );
+    }
+    (class, r.local)
+}
+
+fn c19_config(
+    cfg: &ClassingConfig,
+    desc: &str,
+    cores_list: &[usize],
+    full: bool,
+    col: &Mutex<Collector>,
+) -> (u64, u64) {
+    let gfps: [u32; 8] = [0, 0x08, 0x10, 0x08 | 0x10, 0x1000_0000, 0x1000_0008, 0x100, 0x1000_0108];
+    let mut evals = 0u64;
+    let mut distinct = 0u64;
+    for &cores in cores_list {
+        let classing = cfg.classing(cores);
+        let mut slots = [None; 8];
+        for &(c, n) in classing.classes() {
+            slots[c.0 as usize] = Some(n);
+        }
+        let case = Case {
+            cfg,
+            desc,
+            cores,
+            slots,
+        };
+        let mut reqs: std::collections::BTreeSet<(u8, Option<usize>, usize)> = Default::default();
+        // every (order, gfp) x boundary cores/pids
+        let edge: Vec<usize> = {
+            let mut v = vec![0, 1, 2, cores.saturating_sub(1), cores, cores + 1, 2 * cores - 1, 63, 64];
+            v.sort();
+            v.dedup();
+            v
+        };
+        for order in 0..=10usize {
+            for &gfp in &gfps {
+                for &core in &edge {
+                    for &pid in &edge {
+                        let (c, l) = check_request(&case, order, core, pid, gfp, col);
+                        reqs.insert((c, l, order));
+                        evals += 1;
+                    }
+                }
+            }
+        }
+        // every core x pid for one (order, gfp) per class
+        let cp_max = if full { 64 } else { 16 };
+        for order in [0usize, 3, 6, 9] {
+            for gfp in [0u32, 0x08] {
+                for core in 0..=cp_max {
+                    for pid in 0..=cp_max {
+                        let (c, l) = check_request(&case, order, core, pid, gfp, col);
+                        reqs.insert((c, l, order));
+                        evals += 1;
+                    }
+                }
+            }
+        }
+        distinct += reqs.len() as u64;
+        // execute one get/put per distinct request on a real allocator
+        let frames = 4 * TREE_FRAMES;
+        let ms = LLFree::metadata_size(&classing, frames);
+        let meta = MetaData::alloc(&ms);
+        let alloc = match LLFree::new(frames, Init::FreeAll, &classing, meta) {
+            Ok(a) => a,
+            Err(_) => continue,
+        };
+        for (class, local, order) in reqs {
+            if slots[class as usize].is_none() {
+                continue;
+            }
+            let req = llfree::Request::new(order, llfree::Class(class), local);
+            let r = vh::common::catch(|| {
+                if let Ok((f, _)) = alloc.get(None, req) {
+                    let _ = alloc.put(f, req);
+                }
+            });
+            evals += 1;
+            if let Err(msg) = r {
+                col.lock().unwrap().add(
+                    Violation::new(
+                        "C19",
+                        format!("allocator panicked on a generated request: {}", vh::common::panic_signature(&msg)),
+                        format!("config {desc} cores={cores}: request class {class} local {local:?} order {order}: {msg}"),
+                    ),
+                    || json!({"engine": "classes", "config": desc, "cores": cores, "class": class, "local": local, "order": order}),
+                );
+            }
+        }
+    }
+    (evals, distinct)
+}
+
+fn c19(tier: &str, out: Option<&Path>) -> i32 {
+    let t0 = Instant::now();
+    let thorough = tier == "thorough";
+    let col = Mutex::new(Collector::default());
+    let evals = AtomicU64::new(0);
+    let distinct = AtomicU64::new(0);
+    // all kind combinations for 1..=4 classes
+    let mut combos: Vec<Vec<usize>> = vec![];
+    for k in 1..=4usize {
+        let total = 5usize.pow(k as u32);
+        for code in 0..total {
+            let mut c = code;
+            let mut v = vec![];
+            for _ in 0..k {
+                v.push(c % 5);
+                c /= 5;
+            }
+            combos.push(v);
+        }
+    }
+    let cores_list: Vec<usize> = if thorough {
+        (1..=16).collect()
+    } else {
+        vec![1, 2, 3, 4, 7, 8, 16]
+    };
+    par_for(combos.len(), |i| {
+        let js = config_json(&combos[i]);
+        let cfg: ClassingConfig = match facet_json::from_str(&js) {
+            Ok(c) => c,
+            Err(e) => panic!("MACHINERY: generated config rejected by the deserialiser: {e:?}\n{js}"),
+        };
+        let desc = combos[i].iter().map(|&k| KINDS[k]).collect::<Vec<_>>().join(",");
+        let (e, d) = c19_config(&cfg, &desc, &cores_list, thorough, &col);
+        evals.fetch_add(e, Ordering::Relaxed);
+        distinct.fetch_add(d, Ordering::Relaxed);
+    });
+    // shipped configurations
+    let mut shipped = vec![];
+    if let Ok(rd) = std::fs::read_dir("/repo/results") {
+        for e in rd.flatten() {
+            let p = e.path();
+            let name = p.file_name().unwrap().to_string_lossy().to_string();
+            if name.starts_with("classes") && name.ends_with(".json") {
+                shipped.push(p);
+            }
+        }
+    }
+    shipped.sort();
+    for p in &shipped {
+        let s = std::fs::read_to_string(p).unwrap();
+        match facet_json::from_str::<ClassingConfig>(&s) {
+            Ok(cfg) => {
+                let (e, d) = c19_config(&cfg, &p.display().to_string(), &cores_list, thorough, &col);
+                evals.fetch_add(e, Ordering::Relaxed);
+                distinct.fetch_add(d, Ordering::Relaxed);
+            }
+            Err(e) => {
+                eprintln!("shipped config {} not accepted by the deserialiser: {e:?}", p.display());
+            }
+        }
+    }
+    dom_finish(
+        "C19",
+        tier,
+        t0,
+        evals.load(Ordering::Relaxed),
+        distinct.load(Ordering::Relaxed),
+        "every configuration with 1-4 classes whose slot kinds range over {zero,one,cores,cores_half,pids} (780), built through the real JSON deserialiser with order ranges / MOVABLE matchers that make every class reachable, plus the shipped results/classes*.json; x core counts x orders 0..=10 x 8 gfp words x boundary cores/pids {0,1,2,cores-1,cores,cores+1,2cores-1,63,64}^2, and every core x pid in 0..=64 (16 quick) for one (order,gfp) per class. Oracle: class configured in classing(cores), local None or < slot count; one get/put per distinct request on a real allocator under catch_unwind. distinct_nontrivial = distinct (class, local, order) requests per (config, cores)",
+        vec![json!({"config": "one,cores", "cores": 4, "order": 0, "core": 5, "pid": 9, "gfp": 0})],
+        json!({"kind_combinations": combos.len(), "shipped_configs": shipped.iter().map(|p| p.display().to_string()).collect::<Vec<_>>(), "core_counts": cores_list}),
+        vec!["the full core x pid product is enumerated for one (order, gfp) per class only; the class choice depends on (order, gfp), the slot on (kind, core, cores, pid)".into()],
+        col.into_inner().unwrap(),
+        out,
+    )
+}
+
+fn main() {
+    let args: Vec<String> = std::env::args().collect();
+    if args.len() < 3 {
+        eprintln!("usage: vheval check <C19|C20> <tier> [--out file] | vheval replay <file>");
+        std::process::exit(2);
+    }
+    vh::common::install_panic_hook();
+    match args[1].as_str() {
+        "check" => {
+            let tier = args.get(3).cloned().unwrap_or_else(|| "quick".into());
+            let out = args
+                .iter()
+                .position(|a| a == "--out")
+                .and_then(|i| args.get(i + 1))
+                .map(PathBuf::from);
+            let code = match args[2].as_str() {
+                "C19" => c19(&tier, out.as_deref()),
+                "C20" => replaymc::c20(&tier, out.as_deref()),
+                p => {
+                    eprintln!("unknown property {p}");
+                    2
+                }
+            };
+            std::process::exit(code);
+        }
+        "replay" => {
+            let s = std::fs::read_to_string(&args[2]).expect("read replay");
+            let v: Value = serde_json::from_str(&s).expect("json");
+            let code = match v["engine"].as_str() {
+                Some("replaymc") => replaymc::replay(&v, &args[2]),
+                Some("classes") => {
+                    println!("class-configuration violations are re-checked by `./run C19 quick`: {}", v);
+                    0
+                }
+                _ => 2,
+            };
+            std::process::exit(code);
+        }
+        _ => std::process::exit(2),
+    }
+}
